@@ -24,6 +24,7 @@ type WorkerResult struct {
 	Obligations  int                `json:"obligations"`
 	Discharged   int                `json:"discharged"`
 	Trivial      int                `json:"trivially_true_asserts"`
+	AbsImplied   int                `json:"asserts_implied_by_path_facts"`
 	Undecided    []interp.Undecided `json:"undecided,omitempty"`
 	Cexs         []string           `json:"cex_files,omitempty"`
 	CexLabels    []string           `json:"cex_labels,omitempty"`
@@ -122,6 +123,7 @@ func RunWorker(prop, hname, tier string, caseIdx int, outDir string, verbose boo
 	eng.Explore(in, l.Entry)
 	res.Paths, res.Infeasible, res.Forks, res.MaxDepth = eng.Paths, eng.Infeasible, eng.Forks, eng.MaxDepth
 	res.Obligations, res.Discharged, res.Trivial = eng.Obligations, eng.Discharged, eng.Trivial
+	res.AbsImplied = eng.AbsDischarged
 	res.Undecided = eng.Undecided
 	for _, c := range eng.Cexs {
 		res.Cexs = append(res.Cexs, c.File)
